@@ -719,15 +719,17 @@ package spine
 //@   ensures[C06] removes-its-own-entity: message.FilterPartial != nil && result == nil ==> forall j int :: 0 <= j && j < len(EI) && isRemoved(old(EI[j])) ==> redev[old(ren) + Rcnt(j)] == RD && readdr[old(ren) + Rcnt(j)] == old(EI[j].Description.EntityAddress.Entity)
 //@   define own(k) = old(ren) < casat[k] && casat[k] <= ren && reres[casat[k] - 1] != nil && ((caskind[k] == 1 || caskind[k] == 2) ==> casent[k] == reres[casat[k] - 1]) && (caskind[k] == 3 ==> casaddr[k] == reres[casat[k] - 1].Address())
 //@   ensures[C06] cascade-own-entity: message.FilterPartial != nil ==> forall k int :: old(casn) <= k && k < casn ==> own(k)
-//@   ensures[C06] cascade-complete: message.FilterPartial != nil && result == nil ==> forall i int :: old(ren) <= i && i < ren && reres[i] != nil ==> exists k int :: old(casn) <= k && k + 2 < casn && caskind[k] == 1 && caskind[k + 1] == 2 && caskind[k + 2] == 3 && casat[k] == i + 1 && casat[k + 1] == i + 1 && casat[k + 2] == i + 1
-//@   modifies @CASCADE, @PUBLISH, world, held, ren, redev, readdr, cells(model.NodeManagementDetailedDiscoveryDataType), cells(model.NetworkManagementEntityDescriptionDataType), cells(model.NodeManagementDetailedDiscoveryEntityInformationType), cells(model.NodeManagementDetailedDiscoveryFeatureInformationType), cells(model.NetworkManagementStateChangeType), cells(model.EntityTypeType)
+//@   ensures[C06] cascade-complete: message.FilterPartial != nil && result == nil ==> casn == old(casn) + 3 * (renn - old(renn))
+//@   ensures[C06] cascade-order: message.FilterPartial != nil ==> forall q int :: 0 <= q && old(casn) + 3 * q + 2 < casn ==> caskind[old(casn) + 3 * q] == 1 && caskind[old(casn) + 3 * q + 1] == 2 && caskind[old(casn) + 3 * q + 2] == 3 && casat[old(casn) + 3 * q] == casat[old(casn) + 3 * q + 2] && casat[old(casn) + 3 * q + 1] == casat[old(casn) + 3 * q + 2]
+//@   modifies reres, renn, casn, caskind, casent, casaddr, casat, @PUBLISH, world, held, ren, redev, readdr, cells(model.NodeManagementDetailedDiscoveryDataType), cells(model.NetworkManagementEntityDescriptionDataType), cells(model.NodeManagementDetailedDiscoveryEntityInformationType), cells(model.NodeManagementDetailedDiscoveryFeatureInformationType), cells(model.NetworkManagementStateChangeType), cells(model.EntityTypeType)
 //@   loop 0 invariant partial: message.FilterPartial != nil ==> $s == EI
 //@   loop 0 invariant count: message.FilterPartial != nil ==> ren == old(ren) + Rcnt($k)
 //@   loop 0 invariant each: message.FilterPartial != nil ==> forall j int :: 0 <= j && j < $k && isRemoved(old(EI[j])) ==> redev[old(ren) + Rcnt(j)] == RD && readdr[old(ren) + Rcnt(j)] == old(EI[j].Description.EntityAddress.Entity)
 //@   loop 0 invariant input-kept: message.FilterPartial != nil ==> forall j int :: 0 <= j && j < len(EI) ==> EI[j] == old(EI[j])
-//@   loop 0 invariant cascade-own: message.FilterPartial != nil ==> casn >= old(casn) && ren >= old(ren) && forall k int :: old(casn) <= k && k < casn ==> own(k)
-//@   loop 0 invariant cascade-all: message.FilterPartial != nil ==> forall i int :: old(ren) <= i && i < ren && reres[i] != nil ==> exists k int :: old(casn) <= k && k + 2 < casn && caskind[k] == 1 && caskind[k + 1] == 2 && caskind[k + 2] == 3 && casat[k] == i + 1 && casat[k + 1] == i + 1 && casat[k + 2] == i + 1
-//@   loop 1 invariant removals-unchanged: ren == pre(ren) && redev == pre(redev) && readdr == pre(readdr) && reres == pre(reres) && casn == pre(casn) && caskind == pre(caskind) && casent == pre(casent) && casaddr == pre(casaddr) && casat == pre(casat)
+//@   loop 0 invariant[C06] cascade-own: message.FilterPartial != nil ==> casn >= old(casn) && ren >= old(ren) && forall k int :: old(casn) <= k && k < casn ==> own(k)
+//@   loop 0 invariant[C06] cascade-count: message.FilterPartial != nil ==> casn == old(casn) + 3 * (renn - old(renn)) && renn >= old(renn)
+//@   loop 0 invariant[C06] cascade-order: message.FilterPartial != nil ==> forall q int :: 0 <= q && old(casn) + 3 * q + 2 < casn ==> caskind[old(casn) + 3 * q] == 1 && caskind[old(casn) + 3 * q + 1] == 2 && caskind[old(casn) + 3 * q + 2] == 3 && casat[old(casn) + 3 * q] == casat[old(casn) + 3 * q + 2] && casat[old(casn) + 3 * q + 1] == casat[old(casn) + 3 * q + 2]
+//@   loop 1 invariant removals-unchanged: ren == pre(ren) && redev == pre(redev) && readdr == pre(readdr) && reres == pre(reres) && renn == pre(renn) && casn == pre(casn) && caskind == pre(caskind) && casent == pre(casent) && casaddr == pre(casaddr) && casat == pre(casat)
 
 //@ func (*NodeManagement).handleMsgDetailedDiscoveryData
 //@   requires NMREQ && message.DeviceRemote != nil && message.DeviceRemote.Sender() == nmS
